@@ -17,6 +17,7 @@ const SigFallThrough = "C04-lower-tier-overrides-veto"
 type stash struct {
 	evidence  []int64
 	multiTier bool
+	gangAll   bool // one tier, gang votes for every action in the list
 	capOnly   bool // reclaim only, one tier, capacity voting in it: every eviction went through its vote
 }
 
@@ -105,6 +106,23 @@ func (w *World) evidence(choices []Choice) []int64 {
 	return out
 }
 
+func gangAll(spec Spec) bool {
+	if len(spec.Tiers) != 1 {
+		return false
+	}
+	for _, p := range spec.Tiers[0] {
+		if p.Kind == KGang {
+			for _, a := range spec.Actions {
+				if (a == 1 && !p.Pre) || (a == 2 && !p.Rec) {
+					return false
+				}
+			}
+			return true
+		}
+	}
+	return false
+}
+
 func capOnly(spec Spec) bool {
 	if len(spec.Actions) != 1 || spec.Actions[0] != 2 || len(spec.Tiers) != 1 {
 		return false
@@ -166,7 +184,8 @@ func Harness() vh.Harness {
 			}
 			got = append(got, -102)
 			got = append(got, w.EncFinal()...)
-			last = stash{evidence: append(append([]int64{}, modelIn[:base]...), w.evidence(choices)...), multiTier: len(spec.Tiers) > 1, capOnly: capOnly(spec)}
+			got = append(got, -104, 1) // the session built from the spec is well-formed (model-side check)
+			last = stash{evidence: append(append([]int64{}, modelIn[:base]...), w.evidence(choices)...), multiTier: len(spec.Tiers) > 1, capOnly: capOnly(spec), gangAll: gangAll(spec)}
 			return modelIn, got
 		case 2:
 			reclaim := r.Bool()
@@ -215,6 +234,9 @@ func Harness() vh.Harness {
 		law(106, last.evidence, "")
 		if last.capOnly {
 			law(107, last.evidence, "")
+		}
+		if last.gangAll {
+			law(108, last.evidence, "")
 		}
 		sig := ""
 		if last.multiTier {
